@@ -32,10 +32,12 @@ VARIABLES
     poolKey,    \* <<ep, local port>> :> key of the sender credit pool (H2 port_create)
     lastPool,   \* pool key :> pool size last reported by an H2 credit hook
     ended,      \* [1..2 -> dispatcher result class | "running"]
-    gone,       \* handles dropped so far: set of <<ep, what>>
+    gone,       \* handles dropped so far: set of <<ep, what>> and <<ep, what, port>>
+    cnt,        \* counters <<ep, name>> :> Nat (frames delivered / API results per endpoint)
+    misc,       \* [allDropped, faulted : BOOLEAN, apiPairs : set of <<ep, local, remote>>, lfin : set of ep that know the peer's listener is gone]
     bad         \* <<>> or <<property id, reason, line>>
 
-vars == <<l, cfg, fly, hdrE, hdrD, pair, st, ops, pend, reqs, poolKey, lastPool, ended, gone, bad>>
+vars == <<l, cfg, fly, hdrE, hdrD, pair, st, ops, pend, reqs, poolKey, lastPool, ended, gone, cnt, misc, bad>>
 
 None == [k |-> "None"]
 Ev == Rec[l]
@@ -49,11 +51,14 @@ Flag(p, why) == IF bad = <<>> /\ Checked(p) /\ PrintT("VIOLATION property=" \o p
 NewStream == [sent |-> 0, granted |-> 0, grantedE |-> 0, arrived |-> 0, consumed |-> 0,
               wcur |-> <<>>, wopen |-> FALSE, emptyP |-> 0,
               committed |-> <<>>, delivered |-> <<>>, rcur |-> <<>>, rchunk |-> FALSE, eos |-> FALSE,
-              finE |-> FALSE, closeE |-> FALSE, rfinE |-> FALSE]
+              finE |-> FALSE, closeE |-> FALSE, rfinE |-> FALSE, finD |-> FALSE, closeD |-> FALSE, rfinD |-> FALSE,
+              closeP |-> FALSE, rfinP |-> FALSE, cls |-> "open"]
+Misc0 == [allDropped |-> FALSE, faulted |-> FALSE, apiPairs |-> {}, lfin |-> {}]
+Inc(c, k) == Put(c, k, Get(c, k, 0) + 1)
 
 Init == /\ l = 1 /\ cfg = <<>> /\ fly = <<<<>>, <<>>>> /\ hdrE = <<None, None>> /\ hdrD = <<None, None>>
         /\ pair = <<>> /\ st = <<>> /\ ops = <<>> /\ pend = {} /\ reqs = <<>> /\ poolKey = <<>> /\ lastPool = <<>>
-        /\ ended = <<"running", "running">> /\ gone = {} /\ bad = <<>>
+        /\ ended = <<"running", "running">> /\ gone = {} /\ cnt = <<>> /\ misc = Misc0 /\ bad = <<>>
 
 Is(e) == l <= Len(Rec) /\ Ev.ev = e /\ l' = l + 1
 
@@ -61,7 +66,7 @@ Is(e) == l <= Len(Rec) /\ Ev.ev = e /\ l' = l + 1
 Reset == /\ Is("reset")
          /\ cfg' = Ev.cfg /\ fly' = <<<<>>, <<>>>> /\ hdrE' = <<None, None>> /\ hdrD' = <<None, None>>
          /\ pair' = <<>> /\ st' = <<>> /\ ops' = <<>> /\ pend' = {} /\ reqs' = <<>> /\ poolKey' = <<>> /\ lastPool' = <<>>
-         /\ ended' = <<"running", "running">> /\ gone' = {}
+         /\ ended' = <<"running", "running">> /\ gone' = {} /\ cnt' = <<>> /\ misc' = Misc0
          /\ bad' = bad
 
 \* ------------------------------------------------------------------ wire: emission
@@ -183,55 +188,90 @@ WireEmit ==
     /\ LET d == Ev.dir IN
          /\ fly' = [fly EXCEPT ![d] = Append(@, [b |-> Ev.b, len |-> Ev.len])]
          /\ IF hdrE[d] # None THEN EmitPayload(d) ELSE EmitMsg(d)
-    /\ UNCHANGED <<cfg, hdrD, ops, pend, poolKey, lastPool, ended, gone>>
+    /\ UNCHANGED <<cfg, hdrD, ops, pend, poolKey, lastPool, ended, gone, cnt, misc>>
 
 \* ------------------------------------------------------------------ wire: delivery
 WireDeliver ==
     /\ Is("wire_deliver")
     /\ LET d == Ev.dir IN
        IF fly[d] = <<>> THEN
-            /\ bad' = Flag("TOOL", "delivery of a frame that was never emitted") /\ UNCHANGED <<fly, hdrD, st>>
+            /\ bad' = Flag("TOOL", "delivery of a frame that was never emitted") /\ UNCHANGED <<fly, hdrD, st, cnt, misc>>
        ELSE LET f == Head(fly[d]) IN
             /\ fly' = [fly EXCEPT ![d] = Tail(@)]
             /\ IF hdrD[d] # None THEN
                     LET k == <<d, hdrD[d].port>>  s == Get(st, k, NewStream) IN
                     /\ st' = Put(st, k, [s EXCEPT !.arrived = @ + W!DataCost(f.len)])
-                    /\ hdrD' = [hdrD EXCEPT ![d] = None]
+                    /\ hdrD' = [hdrD EXCEPT ![d] = None] /\ UNCHANGED <<cnt, misc>>
                ELSE LET m == W!Dec(f.b) IN
-                    CASE m.k = "Data" -> hdrD' = [hdrD EXCEPT ![d] = m] /\ UNCHANGED st
+                    CASE m.k = "Data" -> hdrD' = [hdrD EXCEPT ![d] = m] /\ UNCHANGED <<st, cnt, misc>>
                       [] m.k = "PortData" ->
                             LET k == <<d, m.port>>  s == Get(st, k, NewStream) IN
-                            st' = Put(st, k, [s EXCEPT !.arrived = @ + 4 * Len(m.ports)]) /\ UNCHANGED hdrD
+                            st' = Put(st, k, [s EXCEPT !.arrived = @ + 4 * Len(m.ports)]) /\ UNCHANGED <<hdrD, cnt, misc>>
                       [] m.k = "PortCredits" ->
                             LET k == CreditStream(d, m.port)  s == Get(st, k, NewStream) IN
-                            st' = Put(st, k, [s EXCEPT !.granted = @ + W!Val(m.credits)]) /\ UNCHANGED hdrD
-                      [] OTHER -> UNCHANGED <<st, hdrD>>
+                            st' = Put(st, k, [s EXCEPT !.granted = @ + W!Val(m.credits)]) /\ UNCHANGED <<hdrD, cnt, misc>>
+                      [] m.k = "SendFinish" ->
+                            LET k == <<d, m.port>>  s == Get(st, k, NewStream) IN
+                            st' = Put(st, k, [s EXCEPT !.finD = TRUE]) /\ UNCHANGED <<hdrD, cnt, misc>>
+                      [] m.k = "ReceiveClose" ->
+                            LET k == CreditStream(d, m.port)  s == Get(st, k, NewStream) IN
+                            st' = Put(st, k, [s EXCEPT !.closeD = TRUE]) /\ UNCHANGED <<hdrD, cnt, misc>>
+                      [] m.k = "ReceiveFinish" ->
+                            LET k == CreditStream(d, m.port)  s == Get(st, k, NewStream) IN
+                            st' = Put(st, k, [s EXCEPT !.rfinD = TRUE]) /\ UNCHANGED <<hdrD, cnt, misc>>
+                      [] m.k = "PortOpened" -> cnt' = Inc(cnt, <<Oth(d), "opened">>) /\ UNCHANGED <<st, hdrD, misc>>
+                      [] m.k = "Rejected" -> cnt' = Inc(cnt, <<Oth(d), IF m.noPorts THEN "rejNP" ELSE "rej">>) /\ UNCHANGED <<st, hdrD, misc>>
+                      [] m.k = "ListenerFinish" -> misc' = [misc EXCEPT !.lfin = @ \cup {Oth(d)}] /\ UNCHANGED <<st, hdrD, cnt>>
+                      [] OTHER -> UNCHANGED <<st, hdrD, cnt, misc>>
             /\ bad' = bad
     /\ UNCHANGED <<cfg, hdrE, pair, ops, pend, reqs, poolKey, lastPool, ended, gone>>
 
 \* ------------------------------------------------------------------ API
 SendKinds == {"send", "try_send", "send_chunks", "connect"}
 RecvKinds == {"recv_any", "recv_chunk"}
+PortKinds == SendKinds \cup RecvKinds \cup {"close", "closed"}
 \* stream an operation works on
-OpStream(o) == IF o.kind \in SendKinds THEN <<o.ep, Get(pair, <<o.ep, o.port>>, <<>>)>> ELSE <<Oth(o.ep), o.port>>
+OpStream(o) == IF o.kind \in SendKinds \cup {"closed"} THEN <<o.ep, Get(pair, <<o.ep, o.port>>, <<>>)>> ELSE <<Oth(o.ep), o.port>>
 
 ApiStart ==
     /\ Is("api_start")
-    /\ ops' = Put(ops, Ev.op, Ev) /\ pend' = pend \cup {Ev.op}
-    /\ UNCHANGED <<cfg, fly, hdrE, hdrD, pair, st, reqs, poolKey, lastPool, ended, gone, bad>>
+    /\ LET k == IF Ev.kind \in PortKinds THEN OpStream(Ev) ELSE <<>>
+           s == Get(st, k, NewStream)
+           o == IF Ev.kind \in SendKinds THEN Ev @@ [afterClose |-> s.closeP, afterRfin |-> s.rfinP] ELSE Ev IN
+       ops' = Put(ops, Ev.op, o)
+    /\ pend' = pend \cup {Ev.op}
+    /\ UNCHANGED <<cfg, fly, hdrE, hdrD, pair, st, reqs, poolKey, lastPool, ended, gone, cnt, misc, bad>>
+
+\* result of a send-like call on stream k with observation record s
+SendVerdict(o, s) ==
+    IF Ev.res = "ok" THEN
+        IF o.afterRfin THEN <<"C11", "send succeeded although the receiver was already known to be dropped">>
+        ELSE IF o.afterClose THEN <<"C11", "send succeeded although the receiver was already known to be closed">>
+        ELSE <<>>
+    ELSE IF Ev.res = "err" THEN
+        IF Ev.err = "closed_graceful" /\ s.cls # "graceful" THEN <<"C11", "send failed as gracefully closed but the receiver was not closed gracefully">>
+        ELSE IF Ev.err = "closed_dropped" /\ s.cls # "dropped" THEN <<"C11", "send failed as dropped but the receiver was not dropped (or was closed gracefully first)">>
+        ELSE IF Ev.err = "chmux" /\ ~misc.faulted /\ ended[o.ep] = "running" THEN <<"C11", "send failed with a multiplexer error on a healthy connection">>
+        ELSE <<>>
+    ELSE <<>>
 
 ApiDone ==
     /\ Is("api_done")
     /\ pend' = pend \ {Ev.op}
-    /\ IF Ev.op \notin DOMAIN ops THEN UNCHANGED <<st, bad>>
-       ELSE LET o == ops[Ev.op]  k == OpStream(o)  s == Get(st, k, NewStream) IN
-         IF o.kind \in {"send", "try_send", "send_chunks"} /\ Ev.res = "ok" THEN
-              /\ st' = Put(st, k, [s EXCEPT !.committed = Append(@, [t |-> "data", b |-> o.data])])
-              /\ bad' = IF k \notin DOMAIN st THEN Flag("C10", "send on a port the wire never opened") ELSE bad
-         ELSE IF o.kind = "connect" /\ Ev.res = "ok" /\ o.n > 0 THEN
-              /\ st' = Put(st, k, [s EXCEPT !.committed = Append(@, [t |-> "ports", n |-> o.n])]) /\ bad' = bad
+    /\ IF Ev.op \notin DOMAIN ops THEN UNCHANGED <<st, cnt, misc, bad>>
+       ELSE LET o == ops[Ev.op] IN
+         IF o.kind \in SendKinds THEN
+              LET k == OpStream(o)  s == Get(st, k, NewStream)
+                  msg == IF o.kind = "connect" THEN [t |-> "ports", n |-> o.n] ELSE [t |-> "data", b |-> o.data]
+                  commit == Ev.res = "ok" /\ ~(o.kind = "connect" /\ o.n = 0)
+                  v == SendVerdict(o, s)
+                  why == IF k \notin DOMAIN st THEN <<"C10", "send on a port the wire never opened">> ELSE v IN
+              /\ st' = IF commit THEN Put(st, k, [s EXCEPT !.committed = Append(@, msg)]) ELSE st
+              /\ bad' = IF why = <<>> THEN bad ELSE Flag(why[1], why[2])
+              /\ UNCHANGED <<cnt, misc>>
          ELSE IF o.kind \in RecvKinds THEN
-              LET s1 == CASE Ev.res = "data" -> [s EXCEPT !.delivered = Append(@, [t |-> "data", b |-> Ev.data])]
+              LET k == OpStream(o)  s == Get(st, k, NewStream)
+                  s1 == CASE Ev.res = "data" -> [s EXCEPT !.delivered = Append(@, [t |-> "data", b |-> Ev.data])]
                           [] Ev.res = "requests" -> [s EXCEPT !.delivered = Append(@, [t |-> "ports", n |-> Ev.n])]
                           [] Ev.res = "chunks" -> [s EXCEPT !.rchunk = TRUE, !.rcur = <<>>]
                           [] Ev.res = "chunk" -> [s EXCEPT !.rcur = @ \o Ev.data]
@@ -241,77 +281,171 @@ ApiDone ==
                           [] OTHER -> s
                   why == IF ~IsPrefix(s1.delivered, s1.committed) THEN <<"C01", "receiver obtained a message that is not the next completed send">>
                          ELSE IF Ev.res = "none" /\ s1.delivered # s1.committed THEN <<"C11", "end of stream with completed sends missing">>
+                         ELSE IF Ev.res = "none" /\ ~s.finD THEN <<"C11", "end of stream although the sender was not dropped">>
+                         ELSE IF Ev.res = "err" /\ Ev.err = "chmux" /\ ~misc.faulted /\ ended[o.ep] = "running" THEN <<"C11", "receive failed with a multiplexer error on a healthy connection">>
                          ELSE <<>> IN
               /\ st' = Put(st, k, s1)
               /\ bad' = IF why = <<>> THEN bad ELSE Flag(why[1], why[2])
-         ELSE UNCHANGED <<st, bad>>
+              /\ UNCHANGED <<cnt, misc>>
+         ELSE IF o.kind = "closed" THEN
+              LET k == OpStream(o)  s == Get(st, k, NewStream) IN
+              /\ bad' = IF ~(s.closeP \/ s.rfinP) /\ ~misc.faulted /\ ended[o.ep] = "running"
+                        THEN Flag("C11", "closed() resolved although the remote receiver is neither closed nor dropped") ELSE bad
+              /\ UNCHANGED <<st, cnt, misc>>
+         ELSE IF o.kind = "client_connect" THEN
+              IF Ev.res = "ok" THEN
+                   /\ misc' = [misc EXCEPT !.apiPairs = @ \cup {<<o.ep, Ev.local, Ev.remote>>}]
+                   /\ cnt' = Inc(cnt, <<o.ep, "connOk">>)
+                   /\ bad' = IF Get(pair, <<o.ep, Ev.local>>, <<>>) # Ev.remote THEN Flag("C10", "connect returned a port pair that the wire did not pair")
+                             ELSE IF Get(cnt, <<o.ep, "connOk">>, 0) + 1 > Get(cnt, <<o.ep, "opened">>, 0) THEN Flag("C10", "more accepted connects than PortOpened frames received")
+                             ELSE bad
+                   /\ UNCHANGED st
+              ELSE IF Ev.res = "err" THEN
+                   LET name == IF Ev.err = "rejected" THEN "connRej" ELSE IF Ev.err = "remote_ports" THEN "connRNP" ELSE "connOther"
+                       c1 == Inc(cnt, <<o.ep, name>>)
+                       why == IF Ev.err = "rejected" /\ o.ep \notin misc.lfin /\ c1[<<o.ep, name>>] > Get(cnt, <<o.ep, "rej">>, 0)
+                                 THEN <<"C10", "connect refused as rejected without a matching Rejected frame or dropped listener">>
+                              ELSE IF Ev.err = "remote_ports" /\ c1[<<o.ep, name>>] > Get(cnt, <<o.ep, "rejNP">>, 0)
+                                 THEN <<"C10", "connect refused for exhausted remote ports without a matching Rejected frame">>
+                              ELSE IF Ev.err = "chmux" /\ ~misc.faulted /\ ended[o.ep] = "running"
+                                 THEN <<"C10", "connect failed with a multiplexer error on a healthy connection">>
+                              ELSE IF Ev.err \in {"local_ports", "too_many"} /\ o.wait
+                                 THEN <<"C10", "waiting connect refused for a local resource limit">>
+                              ELSE <<>> IN
+                   /\ cnt' = c1
+                   /\ bad' = (IF why = <<>> THEN bad ELSE Flag(why[1], why[2]))
+                   /\ UNCHANGED <<st, misc>>
+              ELSE UNCHANGED <<st, cnt, misc, bad>>
+         ELSE IF o.kind \in {"accept", "req_accept"} /\ Ev.res = "ok" THEN
+              /\ misc' = [misc EXCEPT !.apiPairs = @ \cup {<<o.ep, Ev.local, Ev.remote>>}]
+              /\ UNCHANGED <<st, cnt, bad>>
+         ELSE IF o.kind \in {"accept", "inspect", "req_accept"} /\ Ev.res = "err" THEN
+              /\ bad' = IF Ev.err = "chmux" /\ ~misc.faulted /\ ended[o.ep] = "running"
+                        THEN Flag("C10", "listener failed with a multiplexer error on a healthy connection") ELSE bad
+              /\ UNCHANGED <<st, cnt, misc>>
+         ELSE UNCHANGED <<st, cnt, misc, bad>>
     /\ UNCHANGED <<cfg, fly, hdrE, hdrD, pair, ops, reqs, poolKey, lastPool, ended, gone>>
 
 ApiCancel ==
     /\ Is("api_cancel") /\ pend' = pend \ {Ev.op}
-    /\ UNCHANGED <<cfg, fly, hdrE, hdrD, pair, st, ops, reqs, poolKey, lastPool, ended, gone, bad>>
+    /\ UNCHANGED <<cfg, fly, hdrE, hdrD, pair, st, ops, reqs, poolKey, lastPool, ended, gone, cnt, misc, bad>>
 
 ApiPanic ==
     /\ Is("api_panic") /\ pend' = pend \ {Ev.op}
     /\ bad' = Flag("C08", "panic inside an API call")
-    /\ UNCHANGED <<cfg, fly, hdrE, hdrD, pair, st, ops, reqs, poolKey, lastPool, ended, gone>>
+    /\ UNCHANGED <<cfg, fly, hdrE, hdrD, pair, st, ops, reqs, poolKey, lastPool, ended, gone, cnt, misc>>
 
 \* ------------------------------------------------------------------ quiescence: liveness verdicts
 Waiting(k) == \E i \in pend : ops[i].kind \in RecvKinds /\ OpStream(ops[i]) = k
 Sending(k) == \E i \in pend : ops[i].kind \in SendKinds /\ OpStream(ops[i]) = k
+WatchingClosed(k) == \E i \in pend : ops[i].kind = "closed" /\ OpStream(ops[i]) = k
 PoolOf(k) == LET p == Get(pair, <<Oth(k[1]), k[2]>>, <<>>)  key == Get(poolKey, <<k[1], p>>, 0) IN Get(lastPool, key, 0 - 1)
+PairsOK == \A t \in misc.apiPairs : Get(pair, <<t[1], t[2]>>, <<>>) = t[3]
 
 Quiescent ==
     /\ Is("quiescent")
-    /\ LET stuck == {k \in DOMAIN st : Sending(k) /\ Waiting(k)}
+    /\ LET stuck == {k \in DOMAIN st : Sending(k) /\ Waiting(k) /\ ~st[k].closeD /\ ~st[k].rfinD}
            lost == {k \in DOMAIN st : Waiting(k) /\ st[k].delivered # st[k].committed}
            leak == {k \in DOMAIN st : ~Sending(k) /\ PoolOf(k) >= 0 /\ ~st[k].closeE /\ ~st[k].rfinE
                                       /\ PoolOf(k) # cfg[Oth(k[1])].rbuf - (st[k].sent - st[k].granted)}
+           noeos == {k \in DOMAIN st : Waiting(k) /\ st[k].finD}
+           noclosed == {k \in DOMAIN st : WatchingClosed(k) /\ (st[k].closeD \/ st[k].rfinD)}
+           deadsend == {k \in DOMAIN st : Sending(k) /\ (st[k].closeD \/ st[k].rfinD)}
            why == IF fly # <<<<>>, <<>>>> THEN <<"TOOL", "frames in flight at quiescence">>
                   ELSE IF stuck # {} THEN <<"C03", "operation still pending although the receiver has consumed everything">>
                   ELSE IF lost # {} THEN <<"C01", "completed send not delivered although the receiver keeps receiving">>
                   ELSE IF leak # {} THEN <<"C03", "credit leak: sender pool differs from buffer minus outstanding bytes">>
+                  ELSE IF noeos # {} THEN <<"C11", "receiver still waiting although the sender's finish was delivered">>
+                  ELSE IF noclosed # {} THEN <<"C11", "closed() still pending although the receiver's close/finish was delivered">>
+                  ELSE IF deadsend # {} THEN <<"C11", "send still pending although the receiver's close/finish was delivered">>
+                  ELSE IF ~PairsOK THEN <<"C10", "accepted port pair differs from the pairing on the wire">>
                   ELSE <<>> IN
        bad' = IF why = <<>> THEN bad ELSE Flag(why[1], why[2])
-    /\ UNCHANGED <<cfg, fly, hdrE, hdrD, pair, st, ops, pend, reqs, poolKey, lastPool, ended, gone>>
+    /\ UNCHANGED <<cfg, fly, hdrE, hdrD, pair, st, ops, pend, reqs, poolKey, lastPool, ended, gone, cnt, misc>>
 
 Livelock ==
     /\ Is("livelock")
     /\ bad' = Flag("C03", "scenario does not reach quiescence (frames emitted without progress)")
-    /\ UNCHANGED <<cfg, fly, hdrE, hdrD, pair, st, ops, pend, reqs, poolKey, lastPool, ended, gone>>
+    /\ UNCHANGED <<cfg, fly, hdrE, hdrD, pair, st, ops, pend, reqs, poolKey, lastPool, ended, gone, cnt, misc>>
 
 \* ------------------------------------------------------------------ lifecycle
 Drop ==
-    /\ Is("drop") /\ gone' = gone \cup {<<Ev.ep, Ev.what>>}
-    /\ UNCHANGED <<cfg, fly, hdrE, hdrD, pair, st, ops, pend, reqs, poolKey, lastPool, ended, bad>>
+    /\ Is("drop") /\ gone' = gone \cup {IF Has("port") THEN <<Ev.ep, Ev.what, Ev.port>> ELSE <<Ev.ep, Ev.what>>}
+    /\ UNCHANGED <<cfg, fly, hdrE, hdrD, pair, st, ops, pend, reqs, poolKey, lastPool, ended, cnt, misc, bad>>
+
+AllDropped ==
+    /\ Is("all_dropped") /\ misc' = [misc EXCEPT !.allDropped = TRUE]
+    /\ UNCHANGED <<cfg, fly, hdrE, hdrD, pair, st, ops, pend, reqs, poolKey, lastPool, ended, gone, cnt, bad>>
+
+Fault ==
+    /\ Is("fault") /\ misc' = [misc EXCEPT !.faulted = TRUE]
+    /\ UNCHANGED <<cfg, fly, hdrE, hdrD, pair, st, ops, pend, reqs, poolKey, lastPool, ended, gone, cnt, bad>>
 
 RunEnd ==
     /\ Is("run_end")
     /\ ended' = [ended EXCEPT ![Ev.ep] = Ev.res]
     /\ bad' = IF Ev.res = "panic" THEN Flag("C08", "dispatcher panicked")
-              ELSE IF Has("expect") /\ Ev.expect # Ev.res THEN Flag(Ev.prop, "dispatcher ended with an unexpected result")
+              ELSE IF misc.allDropped /\ ~misc.faulted /\ Ev.res # "ok" THEN Flag("C07", "dispatcher did not finish successfully after everything was dropped")
+              ELSE IF ~misc.faulted /\ Ev.res \notin {"ok", "running"} THEN Flag("C06", "dispatcher failed on a healthy transport")
               ELSE bad
-    /\ UNCHANGED <<cfg, fly, hdrE, hdrD, pair, st, ops, pend, reqs, poolKey, lastPool, gone>>
+    /\ UNCHANGED <<cfg, fly, hdrE, hdrD, pair, st, ops, pend, reqs, poolKey, lastPool, gone, cnt, misc>>
+
+AllocCheck ==
+    /\ Is("alloc_check")
+    /\ bad' = IF Ev.got # Ev.max THEN Flag("C07", "port numbers not reclaimed after everything was dropped") ELSE bad
+    /\ UNCHANGED <<cfg, fly, hdrE, hdrD, pair, st, ops, pend, reqs, poolKey, lastPool, ended, gone, cnt, misc>>
+
+Tasks ==
+    /\ Is("tasks")
+    /\ LET open == {q \in DOMAIN reqs : reqs[q].state = "open"} IN
+       bad' = IF Ev.alive # 0 THEN Flag("C07", "background tasks left behind after shutdown")
+              ELSE IF open # {} /\ ~misc.faulted THEN Flag("C10", "port-open request never resolved on the wire")
+              ELSE bad
+    /\ UNCHANGED <<cfg, fly, hdrE, hdrD, pair, st, ops, pend, reqs, poolKey, lastPool, ended, gone, cnt, misc>>
+
+\* H2: the dispatcher processed a ReceiveClose / ReceiveFinish for its local port (sender side learns of it)
+HRxClose ==
+    /\ l <= Len(Rec) /\ Ev.ev \in {"h_mux_rx_receive_close", "h_mux_rx_receive_finish"} /\ l' = l + 1
+    /\ LET k == <<Ev.who, Get(pair, <<Ev.who, Ev.local>>, <<>>)>>  s == Get(st, k, NewStream) IN
+       st' = IF k \in DOMAIN st
+               THEN Put(st, k, IF Ev.ev = "h_mux_rx_receive_close" THEN [s EXCEPT !.closeP = TRUE, !.cls = IF @ = "open" THEN "graceful" ELSE @]
+                                                                   ELSE [s EXCEPT !.rfinP = TRUE, !.cls = IF @ = "open" THEN "dropped" ELSE @])
+               ELSE st
+    /\ UNCHANGED <<cfg, fly, hdrE, hdrD, pair, ops, pend, reqs, poolKey, lastPool, ended, gone, cnt, misc, bad>>
+
+\* H2: the dispatcher freed a port: not before both directions are finished
+HPortFree ==
+    /\ Is("h_port_free")
+    /\ LET e == Ev.who  p == Ev.local
+           kOut == <<e, Get(pair, <<e, p>>, <<>>)>>  kIn == <<Oth(e), p>>
+           known == \E t \in misc.apiPairs : t[1] = e /\ t[2] = p
+           why == IF kOut \notin DOMAIN st \/ kIn \notin DOMAIN st THEN <<>>
+                  ELSE IF ~(st[kIn].finD /\ st[kOut].rfinD) THEN <<"C07", "port freed before the peer finished both directions">>
+                  ELSE IF known /\ ~(<<e, "sender", p>> \in gone /\ <<e, "receiver", p>> \in gone) THEN <<"C07", "port freed while a local handle is still alive">>
+                  ELSE <<>> IN
+       bad' = IF why = <<>> THEN bad ELSE Flag(why[1], why[2])
+    /\ UNCHANGED <<cfg, fly, hdrE, hdrD, pair, st, ops, pend, reqs, poolKey, lastPool, ended, gone, cnt, misc>>
 
 \* ------------------------------------------------------------------ H2 hooks: sender credit pool
 HPortCreate ==
     /\ Is("h_port_create")
     /\ poolKey' = Put(poolKey, <<Ev.who, Ev.local>>, Ev.pool_key)
     /\ lastPool' = Put(lastPool, Ev.pool_key, IF Ev.who \in {1, 2} /\ cfg # <<>> THEN cfg[Oth(Ev.who)].rbuf ELSE 0)
-    /\ UNCHANGED <<cfg, fly, hdrE, hdrD, pair, st, ops, pend, reqs, ended, gone, bad>>
+    /\ UNCHANGED <<cfg, fly, hdrE, hdrD, pair, st, ops, pend, reqs, ended, gone, bad, cnt, misc>>
 
 HPool ==
     /\ l <= Len(Rec) /\ Ev.ev \in {"h_credit_grant", "h_credit_drop", "h_credit_provide"} /\ l' = l + 1
     /\ lastPool' = Put(lastPool, Ev.key, Ev.pool)
-    /\ UNCHANGED <<cfg, fly, hdrE, hdrD, pair, st, ops, pend, reqs, poolKey, ended, gone, bad>>
+    /\ UNCHANGED <<cfg, fly, hdrE, hdrD, pair, st, ops, pend, reqs, poolKey, ended, gone, bad, cnt, misc>>
 
 Known == {"reset", "wire_emit", "wire_deliver", "api_start", "api_done", "api_cancel", "api_panic", "quiescent", "livelock",
-          "drop", "run_end", "h_port_create", "h_credit_grant", "h_credit_drop", "h_credit_provide"}
+          "drop", "run_end", "h_port_create", "h_credit_grant", "h_credit_drop", "h_credit_provide",
+          "all_dropped", "fault", "alloc_check", "tasks", "h_mux_rx_receive_close", "h_mux_rx_receive_finish", "h_port_free"}
 Skip == /\ l <= Len(Rec) /\ Ev.ev \notin Known /\ l' = l + 1
-        /\ UNCHANGED <<cfg, fly, hdrE, hdrD, pair, st, ops, pend, reqs, poolKey, lastPool, ended, gone, bad>>
+        /\ UNCHANGED <<cfg, fly, hdrE, hdrD, pair, st, ops, pend, reqs, poolKey, lastPool, ended, gone, bad, cnt, misc>>
 
 Next == Reset \/ WireEmit \/ WireDeliver \/ ApiStart \/ ApiDone \/ ApiCancel \/ ApiPanic \/ Quiescent \/ Livelock
-        \/ Drop \/ RunEnd \/ HPortCreate \/ HPool \/ Skip
+        \/ Drop \/ RunEnd \/ HPortCreate \/ HPool \/ Skip \/ AllDropped \/ Fault \/ AllocCheck \/ Tasks \/ HRxClose \/ HPortFree
 Spec == Init /\ [][Next]_vars
 
 \* ------------------------------------------------------------------ properties evaluated at every step
